@@ -88,6 +88,23 @@ Example spec_same_kid_two_types_nonvacuous :
                     mkSnap 1 false [SErr ESig; SErr ESig] [9; 1; 7] true]) = false.
 Proof. vm_compute. auto. Qed.
 
+(* keys published WITHOUT kid, tokens WITH kid, then a rotation: the new key's token refreshes and
+   verifies (the retired key's token is still answered by the cache); turning it away on arrival
+   without a download is rejected *)
+Example spec_kidless_rotation_nonvacuous :
+  let kO := mkJwk "" KEc "sig" 1 in let kN := mkJwk "" KEc "sig" 3 in
+  let tO := mkTok "x" "ES256" 1 in let tN := mkTok "x" "ES256" 3 in
+  let sc := Script false [MRotate [kO]; MArrive tO; MRelease (Http true (Doc [Some kO])); MRotate [kN];
+                          MArrive tN; MArrive tO; MRelease (Http true (Doc [Some kN]))] in
+  spec sc (model sc) = true /\
+  model sc = OScript [mkSnap 0 false [] [] true; mkSnap 1 false [SPending] [] true; mkSnap 1 true [SOk] [1] true;
+                      mkSnap 1 false [SOk] [1] true; mkSnap 2 false [SOk; SPending] [1] true;
+                      mkSnap 2 false [SOk; SPending; SOk] [1] true; mkSnap 2 true [SOk; SOk; SOk] [3] true] /\
+  spec sc (OScript [mkSnap 0 false [] [] true; mkSnap 1 false [SPending] [] true; mkSnap 1 true [SOk] [1] true;
+                    mkSnap 1 false [SOk] [1] true; mkSnap 1 false [SOk; SErr ESig] [1] true;
+                    mkSnap 1 false [SOk; SErr ESig; SOk] [1] true; mkSnap 1 false [SOk; SErr ESig; SOk] [1] true]) = false.
+Proof. vm_compute. auto. Qed.
+
 (* and rejects what the unrepaired code did (F13): B fails when A is cancelled *)
 Example spec_rejects_F13 :
   spec (Script false [MArrive xtA; MArrive xtA; MCancel 0; MRelease xgood1])
